@@ -688,10 +688,14 @@ pub fn alt(inp: &Input, obs: &Obs, pvalue: bool) -> Result<(), String> {
     } else {
         Ask { pv: true, q: last.score, maxit: 3 }
     };
+    // an INVALID query in the middle of the history (a negative p-value: `lookup_score` panics, the caller
+    // catches the unwind and keeps the object): the valid queries that follow are still answered as the
+    // property prescribes, i.e. like a fresh object answers them
+    let invalid = Ask { pv: false, q: -0.5, maxit: 2 };
     let seq: Vec<Ask> = if pvalue {
-        vec![main_ask, other, main_ask, Ask { pv: true, q: lo - 1.5, maxit: 2 }, Ask { pv: true, q: hi + 1.5, maxit: 2 }, Ask { pv: true, q: (lo + hi) / 2.0 + 0.0123, maxit: 3 }, main_ask]
+        vec![main_ask, invalid, other, main_ask, Ask { pv: true, q: lo - 1.5, maxit: 2 }, Ask { pv: true, q: hi + 1.5, maxit: 2 }, Ask { pv: true, q: (lo + hi) / 2.0 + 0.0123, maxit: 3 }, main_ask]
     } else {
-        vec![main_ask, other, main_ask, Ask { pv: false, q: 1e-12, maxit: 2 }, Ask { pv: false, q: 1.0 - 1e-12, maxit: 2 }, Ask { pv: true, q: hi + 1.5, maxit: 2 }, Ask { pv: true, q: lo - 1.5, maxit: 2 }, main_ask]
+        vec![main_ask, invalid, other, main_ask, Ask { pv: false, q: 1e-12, maxit: 2 }, Ask { pv: false, q: 1.0 - 1e-12, maxit: 2 }, Ask { pv: true, q: hi + 1.5, maxit: 2 }, Ask { pv: true, q: lo - 1.5, maxit: 2 }, main_ask]
     };
     let mut reused = TfmPvalue::new(&pssm);
     for (k, a) in seq.iter().enumerate() {
@@ -702,8 +706,8 @@ pub fn alt(inp: &Input, obs: &Obs, pvalue: bool) -> Result<(), String> {
         if k == 0 {
             same_its("the query of the case asked of a second fresh object", &fresh, &main, true)?;
         }
-        if got.1 {
-            // a panic may leave the object half-updated: nothing is claimed about later answers
+        if got.1 && a.q >= 0.0 {
+            // a panic on a VALID query is judged by the main clauses; nothing more is asked of this object
             break;
         }
     }
